@@ -41,6 +41,9 @@ structure DSt where
   recs : Std.HashMap Nat Stored := {}                 -- hash id ↦ DB record
   res : Std.HashMap Nat Res := {}                     -- hash id ↦ how GetNode resolves it now
   first : Std.HashMap String (Option Node) := {}      -- label ↦ abstraction first observed
+  model : Option (St × MT) := none                    -- the heap MODEL replayed next to the real heap (first `modelBudget` ops)
+  mviews : List (Nat × Option Addr) := []             -- view id ↦ the model's root handle
+  budget : Nat := 0
 
 def join (ws : List String) : String := " ".intercalate ws
 
@@ -276,13 +279,151 @@ def readLine (st : DSt) (line impl : String) (tok : String) (r : Read) : DSt × 
 
 def b (s : String) : Bool := s == "1"
 
-def step (st : DSt) (pre post : List String) : DSt × Verdict :=
+/-! ### The heap model replayed next to the real heap
+
+For the first `modelBudget` operations of a stream the driver also runs `Iavl.Heap`'s own step
+functions (the ones the theorems are about) with the implementation's cache size and compares, after
+every operation, the pointer-reachable shape of the working tree and of `lastSaved` — per object:
+key, height, size, version, `persisted`, hash memoised?, child hashes present?, child held by pointer? —
+with the dumped Go heap.  A difference is a `DIFF heap-model-shape` (the heap model is not the code).
+The model heap is a list that only grows, hence the budget. -/
+
+def modelBudget : Nat := 160
+
+def nat4 (n : Nat) : Bytes := [UInt8.ofNat (n / 16777216), UInt8.ofNat (n / 65536 % 256), UInt8.ofNat (n / 256 % 256), UInt8.ofNat (n % 256)]
+
+/-- The model's hash: a serialisation of the hash input (only presence of hashes is compared). -/
+def Hd : HashIn → Hash
+  | .leaf h s ver k v => [0] ++ nat4 h ++ nat4 s ++ nat4 ver ++ nat4 k.length ++ k ++ v
+  | .inner h s ver l r => [1] ++ nat4 h ++ nat4 s ++ nat4 ver ++ nat4 l.length ++ l ++ r
+
+def b01 (x : Bool) : String := if x then "1" else "0"
+
+def cellShape (c : Cell) (l r : String) : String :=
+  s!"({Bytes.render c.key},{c.height},{c.size},{c.version},{b01 c.persisted},{b01 c.hash.isSome},{b01 c.leftHash.isSome},{b01 c.rightHash.isSome},{l},{r})"
+
+partial def shapeModel (st : St) (a : Addr) : String :=
+  match st.heap[a]? with
+  | none => "?"
+  | some c =>
+    let ch (p : Option Addr) : String := match p with | some q => shapeModel st q | none => "."
+    if c.height = 0 then cellShape c "." "." else cellShape c (ch c.leftPtr) (ch c.rightPtr)
+
+partial def shapeImpl (cells : Std.HashMap Nat Cell) (m : Nat) : String :=
+  match cells[m]? with
+  | none => "?"
+  | some c =>
+    let ch (p : Option Nat) : String := match p with | some q => shapeImpl cells q | none => "."
+    if c.height = 0 then cellShape c "." "." else cellShape c (ch c.leftPtr) (ch c.rightPtr)
+
+def rootRef (toks : List String) (label : String) : Option String :=
+  toks.findSome? (fun t => match t.splitOn "," with
+    | ["R", l, r] => if l == label then some r else none
+    | _ => none)
+
+def shapeOfRef (st : DSt) (ref : String) : String :=
+  if ref = "-" then "-" else match parseObj ref with
+    | some m => shapeImpl st.cells m
+    | none => "?"
+
+def shapeOfOpt (ms : St) : Option Addr → String
+  | none => "-"
+  | some a => shapeModel ms a
+
+/-- Compare the model's working / lastSaved shapes with the dumped ones. -/
+def compareShapes (st : DSt) (toks : List String) : Option String :=
+  match st.model with
+  | none => none
+  | some (ms, mt) =>
+    let chk (label : String) (mroot : Option Addr) : Option String :=
+      match rootRef toks label with
+      | none => none
+      | some ref =>
+        let si := shapeOfRef st ref
+        let sm := shapeOfOpt ms mroot
+        if si == sm then none else some s!"heap-model-shape {label}: model {sm} impl {si}"
+    -- the LRU queue of the node cache (small caches only), as key:height:version per entry
+    let chkQ : Option String :=
+      match toks.findSome? (fun t => if t.startsWith "Q," then some (t.drop 2).toString else none) with
+      | none => none
+      | some qi =>
+        let qm := ms.queue.map (fun e => match ms.heap[e.2]? with
+          | some c => s!"{Bytes.render c.key}:{c.height}:{c.version}"
+          | none => "?")
+        let sm := if qm.isEmpty then "-" else ";".intercalate qm
+        if qi == sm then none else some s!"heap-model-cache: LRU queue model {sm} impl {qi}"
+    match chk "W" mt.root with
+    | some d => some d
+    | none => match chk "L" mt.lastSaved with
+      | some d => some d
+      | none => chkQ
+
+def mroot (st : DSt) (mt : MT) (tok : String) : Option (Option Addr) :=
+  if tok = "w" then some mt.root
+  else if tok.startsWith "x" then ((tok.drop 1).toNat?).bind (fun id => (st.mviews.find? (·.1 == id)).map (·.2))
+  else none
+
+/-- One operation on the heap model (`none`: the model panicked / ran out of fuel / bad line). -/
+def modelStep (st : DSt) (ms : St) (mt : MT) (pre : List String) (impl : String) :
+    Option (St × MT × List (Nat × Option Addr)) :=
+  let fuel := 80
+  let rd (tok : String) (r : Read) : Option (St × MT × List (Nat × Option Addr)) := do
+    let root ← mroot st mt tok
+    let (ms', _) ← readRootH fuel ms root r
+    some (ms', mt, st.mviews)
+  match pre with
+  | ["set", k, v] => do
+    let kb ← Bytes.parse k
+    let vb ← Bytes.parse v
+    let (ms', mt', _) ← Iavl.Heap.set Cfg.asIs fuel ms mt kb vb
+    some (ms', mt', st.mviews)
+  | ["rm", k] => do
+    let kb ← Bytes.parse k
+    let (ms', mt', _) ← Iavl.Heap.remove Cfg.asIs fuel ms mt kb
+    some (ms', mt', st.mviews)
+  | ["save"] => do
+    let (ms', mt', _) ← saveVersion Hd fuel ms mt
+    some (ms', mt', st.mviews)
+  | ["whash"] => do
+    let (ms', _) ← workingHash Hd fuel ms mt
+    some (ms', mt, st.mviews)
+  | ["rollback"] => some (ms, rollback mt, st.mviews)
+  | ["reload", v] => do
+    let vv ← v.toNat?
+    let (ms', mt', _) ← loadVersion ms mt vv
+    some (ms', mt', st.mviews)
+  | ["open", kind, v] => do
+    let vv ← v.toInt?
+    let (ms', res) ← if kind == "I" then (if vv < 0 then some (ms, ViewRes.errMissing) else getImmutable ms vv.toNat)
+                     else lazyLoadVersion ms vv
+    match res with
+    | .view root _ =>
+      if impl.startsWith "x" then
+        match (impl.drop 1).toNat? with
+        | some id => some (ms', mt, (id, root) :: st.mviews)
+        | none => none
+      else none
+    | _ => if impl.startsWith "x" then none else some (ms', mt, st.mviews)
+  | ["drop", _] => some (ms, mt, st.mviews)
+  | ["get", tok, k] => (Bytes.parse k).bind (fun kb => rd tok (.get kb))
+  | ["has", tok, k] => (Bytes.parse k).bind (fun kb => rd tok (.has kb))
+  | ["idx", tok, i] => (i.toInt?).bind (fun ii => rd tok (.byIndex ii))
+  | ["iter", tok, s, e, asc, incl] =>
+    match Bytes.parseOpt s, Bytes.parseOpt e with
+    | some sb, some eb => rd tok (.range sb eb (asc == "1") (incl == "1"))
+    | _, _ => none
+  | _ => none
+
+def step0 (st : DSt) (pre post : List String) : DSt × Verdict :=
   let line := join pre
   let impl := join post
   match pre with
   | "heap" :: toks =>
     if impl != "ok" then (st, .propfail "impl-panic" s!"heap dump: {impl}") else heapLine st toks
-  | ["config", "cache", _] => (st, .ok)
+  | ["config", "cache", n] =>
+    match n.toNat? with
+    | some sz => ({ st with model := some ({ cacheSize := sz }, {}), budget := modelBudget }, .ok)
+    | none => (st, .bad "config args")
   | ["set", k, v] =>
     match Bytes.parse k, Bytes.parse v with
     | some kb, some vb =>
@@ -355,5 +496,29 @@ def step (st : DSt) (pre post : List String) : DSt × Verdict :=
     | some sb, some eb => readLine st line impl tok (.range sb eb (b asc) (b incl))
     | _, _ => (st, .bad "iter args")
   | _ => (st, .bad s!"op {line.take 40}")
+
+/-- `step0` (pure model, monitor) plus the heap model replay. -/
+def step (st : DSt) (pre post : List String) : DSt × Verdict :=
+  let (st1, v) := step0 st pre post
+  match st.model with
+  | none => (st1, v)
+  | some (ms, mt) =>
+    match pre with
+    | "heap" :: toks =>
+      -- `st1` has the freshly dumped objects
+      match v, compareShapes st1 toks with
+      | .ok, some d => ({ st1 with model := none }, .diff d)
+      | _, _ => (st1, v)
+    | "config" :: _ => (st1, v)
+    | _ =>
+      if st.budget = 0 then ({ st1 with model := none }, v)
+      else
+        match modelStep st ms mt pre (join post) with
+        | some (ms', mt', mv) => ({ st1 with model := some (ms', mt'), mviews := mv, budget := st.budget - 1 }, v)
+        | none =>
+          ({ st1 with model := none },
+            match v with
+            | .ok => .diff s!"heap-model-stuck: the heap model panicked / ran out of fuel on: {join pre}"
+            | _ => v)
 
 def main : IO Unit := Proto.run ({} : DSt) step
